@@ -2,6 +2,8 @@ package main
 
 import (
 	"fmt"
+	"os"
+	"runtime/debug"
 	"go/types"
 	"math/big"
 	"strings"
@@ -255,6 +257,9 @@ func (ex *Exec) flatten(t types.Type, v *Val, prefix string, put func(l Leaf, t 
 		return
 	case *types.Struct:
 		if len(v.Fs) != tt.NumFields() {
+			if os.Getenv("GOCV_DEBUG") != "" {
+				debug.PrintStack()
+			}
 			panic(oos(fmt.Sprintf("flatten: struct value mismatch for %s: %v", t, v)))
 		}
 		for i := 0; i < tt.NumFields(); i++ {
